@@ -126,3 +126,46 @@ def token_lines(path, cwd=None):
                 lines.add(cur)
             cur += 1
     return (rc == 0 and not err.strip()), lines, err
+
+
+def expand_texts(cases, workdir, name="expand.c"):
+    """cases: list of (defines=[ '#define ...' lines ], text). One gcc run; returns list of (expanded text|None, diag)."""
+    lines = []
+    owner = {}
+    for i, (defines, text) in enumerate(cases):
+        start = len(lines) + 1
+        names = []
+        for d in defines:
+            lines.append(d)
+            m = re.match(r"#\s*define\s+(\w+)", d)
+            if m:
+                names.append(m.group(1))
+        lines.append(f"cbi_m_s{i} {text}")
+        lines.append(f"cbi_m_t{i}")
+        for n in dict.fromkeys(names):
+            lines.append(f"#undef {n}")
+        for ln in range(start, len(lines) + 1):
+            owner[ln] = i
+    path = os.path.join(workdir, name)
+    with open(path, "w") as f:
+        f.write("\n".join(lines) + "\n")
+    rc, out, err = run(BASE + ["-P", "-fno-diagnostics-show-caret", path], cwd=workdir, timeout=300)
+    diag = {}
+    pat = re.compile(r"^" + re.escape(path) + r":(\d+):(?:\d+:)? (.*)$")
+    for ln in err.splitlines():
+        m = pat.match(ln)
+        if m:
+            i = owner.get(int(m.group(1)))
+            if i is not None:
+                diag.setdefault(i, m.group(2))
+    res = []
+    for i in range(len(cases)):
+        if i in diag:
+            res.append((None, diag[i]))
+            continue
+        m = re.search(r"cbi_m_s%d\b(.*?)cbi_m_t%d\b" % (i, i), out, re.S)
+        if not m:
+            res.append((None, "markers lost (unterminated invocation swallowed the end marker)"))
+        else:
+            res.append((m.group(1), None))
+    return res
